@@ -190,6 +190,8 @@ func c09Build(kind, site1, site2, ctx, nameForm, ref, callee int) *rj.Program {
 		call = []rj.Stmt{rj.Let("res", &rj.Exec{Name: nameX, Ctx: ctxX}), rj.T("(res="), rj.E(&rj.Tern{C: &rj.IsSet{Args: []rj.Expr{rj.V("res")}}, A: rj.V("res"), B: rj.S("<nil>")}), rj.T(")")}
 	case 2:
 		call = []rj.Stmt{rj.T("("), rj.E(&rj.IncIf{Name: nameX, Ctx: ctxX}), rj.T(")")}
+	case 4: // exec as an argument of isset: a failure inside is swallowed, and nothing of the execution may stay behind
+		call = []rj.Stmt{rj.T("("), rj.E(&rj.Tern{C: &rj.IsSet{Args: []rj.Expr{rj.F(&rj.Exec{Name: nameX, Ctx: ctxX}, "Total")}}, A: rj.S("set"), B: rj.S("unset")}), rj.T(")")}
 	case 3:
 		call = []rj.Stmt{rj.T("("), &rj.If{Cond: &rj.IncIf{Name: nameX, Ctx: ctxX}, Then: []rj.Stmt{rj.T("+yes")}, HasElse: true, Else: []rj.Stmt{rj.T("+no")}}, rj.T(")")}
 	}
@@ -214,10 +216,10 @@ func c09Build(kind, site1, site2, ctx, nameForm, ref, callee int) *rj.Program {
 var c09Space = registerSpace(&e1Space{
 	Prop: "C09", Name: "calls",
 	N: func(th bool) int64 {
-		return 4 * c09NSites * c09NSites * 3 * c09NNames * 3 * c09NCallee
+		return 5 * c09NSites * c09NSites * 3 * c09NNames * 3 * c09NCallee
 	},
 	Gen: func(i int64, th bool) *rj.Program {
-		ix := core.Radix(i, 4, c09NSites, c09NSites, 3, c09NNames, 3, c09NCallee)
+		ix := core.Radix(i, 5, c09NSites, c09NSites, 3, c09NNames, 3, c09NCallee)
 		if ix[3] == 2 && (ix[4] != 0 || ix[5] != 0) {
 			return nil // the nil context only with the absolute name from the root referrer
 		}
@@ -227,7 +229,7 @@ var c09Space = registerSpace(&e1Space{
 })
 
 func C09(r *core.Run) map[string]interface{} {
-	r.Rule = "call kind (include, exec, includeIfExists as action and as condition) x call site nested <=2 deep over 7 frames (top, range, block, try, include, content, if) x context x 6 name forms (incl. one computed from the caller's context) x 3 referrer depths x 26 callee shapes (return at every position, return followed by each statement kind, extends chains 1-3, declarations, caller blocks, failing, missing); after the call the caller probes its variables, context and blocks; distinct = distinct reference outcomes"
+	r.Rule = "call kind (include, exec, includeIfExists as action and as condition, exec inside isset) x call site nested <=2 deep over 7 frames (top, range, block, try, include, content, if) x context x 6 name forms (incl. one computed from the caller's context) x 3 referrer depths x 26 callee shapes (return at every position, return followed by each statement kind, extends chains 1-3, declarations, caller blocks, failing, missing); after the call the caller probes its variables, context and blocks; distinct = distinct reference outcomes"
 	runSpace(r, c09Space)
 	return map[string]interface{}{"callee_shapes": c09NCallee, "sites": c09NSites, "traces_validated_against_impl": r.Evals()}
 }
